@@ -359,4 +359,37 @@ example :
       (c.unfoldAll b 3).cycles =
         [[⟨2, [], [1], [2]⟩, ⟨1, [], [2], [2]⟩], [⟨6, [], [2, 0], [2, 2]⟩]] := by decide
 
+/-- **append_circuit**: when every relabelled operation of the sub-circuit is accepted
+(`check_valid_operation`), the call succeeds and each timeline gains, at its end, the qudit's part
+of the sub-circuit's operations in iteration order, relabelled through `location`. -/
+theorem C04_append_circuit_timeline (c sub : Circ) (loc : List Nat)
+    (hlen : sub.numQudits = loc.length)
+    (hv : ∀ x ∈ sub.iter, c.checkValid (x.mapLoc loc) = .ok ()) (q : Nat) :
+    (c.appendCircuit sub loc).2 = .ok () ∧
+      (c.appendCircuit sub loc).1.timeline q =
+        c.timeline q ++ proj q (sub.iter.map (·.mapLoc loc)) := by
+  rw [appendCircuit_eq c sub loc hlen]
+  exact append_fold_timeline _ c (by
+    intro y hy
+    rw [List.mem_map] at hy
+    obtain ⟨x, hx, rfl⟩ := hy
+    exact hv x hx) q
+
+/-- **insert_circuit** at an in-range non-negative cycle `k`: the sub-circuit's operations (the
+code inserts them one by one in REVERSED order at `k`, so they end up in forward order) come
+after everything in cycles `< k` and before everything in cycles `≥ k`. -/
+theorem C04_insert_circuit_timeline (c sub : Circ) (loc : List Nat) (k : Nat)
+    (hlen : sub.numQudits = loc.length) (hk : k < c.numCycles)
+    (hv : ∀ x ∈ sub.iterRev, c.checkValid (x.mapLoc loc) = .ok ()) (q : Nat) :
+    (c.insertCircuit (k : Int) sub loc).2 = .ok () ∧
+      (c.insertCircuit (k : Int) sub loc).1.timeline q =
+        proj q (c.cycles.take k).flatten ++ proj q (sub.iterRev.reverse.map (·.mapLoc loc)) ++
+          proj q (c.cycles.drop k).flatten := by
+  rw [insertCircuit_eq_lt c sub loc k hlen hk, List.map_reverse]
+  exact insert_fold_timeline k _ c hk (by
+    intro y hy
+    rw [List.mem_map] at hy
+    obtain ⟨x, hx, rfl⟩ := hy
+    exact hv x hx) q
+
 end BqVerif.C04
